@@ -12,7 +12,7 @@ from runner import Case
 
 THEOREMS = [
     "C18.vertical_lines", "C18.vertical_preorder", "C18.vertical_indent",
-    "C18.print_roundtrip", "C18.print_roundtrip_text", "C18.builtin_styles_ok",
+    "C18.print_roundtrip", "C18.print_roundtrip_text", "C18.print_roundtrip_noprefix", "C18.builtin_styles_ok",
     "C18.mermaid_ids_injective", "C18.mermaid_ids_nodup", "C18.mermaid_edges_exact", "C18.mermaid_vertices",
     "C18.mermaid_single_no_vertex",
     "C18.dot_vertices_labels", "C18.dot_edges_exact", "C18.dot_ids_injective_partial", "C18.dot_ids_not_injective",
@@ -156,7 +156,7 @@ def _line(d):
         p = ":".join(hx(x) for x in d["prefixes"]) if d["prefixes"] else "-"
         return f"op=s2t prefixes={p} text={hx(d['text'])}"
     if op == "rt":
-        return f"op=rt style={style_tok(d['style'])} md={d['md']} " + _tree_part(d)
+        return f"op=rt style={style_tok(d['style'])} md={d['md']} np={1 if d.get('noprefix') else 0} " + _tree_part(d)
     raise ValueError(op)
 
 
@@ -300,6 +300,9 @@ def impl(case):
             dd = dict(d, start=0, nnp="", op="print")
             text = _print_text(dd, nodes)
             _stem, branch, final = _style_strings(d)
+            if d.get("noprefix"):
+                import bigtree
+                return shape_str(node_to_spec(bigtree.str_to_tree(text)))
             return shape_str(node_to_spec(_s2t(text, [branch, final])))
     except AssertionError:
         raise
@@ -835,10 +838,17 @@ def _oracle_rt(d):
     gap = " " * len(stem)
     if not (_regex_safe(stem, branch, final, gap) and all(_safe_v(s[0], (stem, branch, final, gap)) for _p, _d, s in t_pre(exp))):
         return []
+    if d.get("noprefix") and not (all(ord(c) >= 128 or c == " " for c in stem + branch + final)
+                                  and all(s[0].isascii() for _p, _d, s in t_pre(exp))):
+        return []
     _root, nodes = _build(d)
     try:
         text = _print_text(dict(d, start=0, nnp="", op="print"), nodes)
-        back = node_to_spec(_s2t(text, [branch, final]))
+        if d.get("noprefix"):
+            import bigtree
+            back = node_to_spec(bigtree.str_to_tree(text))
+        else:
+            back = node_to_spec(_s2t(text, [branch, final]))
     except Exception as e:
         return [f"str_to_tree(print_tree(t)) raised {type(e).__name__} for {shape_plain(exp)}"]
     return [] if _same(back, exp) else [f"str_to_tree(print_tree(t)) = {shape_plain(back)} for t = {shape_plain(exp)}"]
@@ -1077,6 +1087,7 @@ def gen(rng: random.Random, tier: str):
         add(mk({"op": "dot", "spec": spec}, tg))
         add(mk({"op": "mermaid", "spec": spec}, tg + (("mermaid-single",) if n == 1 else ())))
         add(mk({"op": "rt", "spec": spec, "style": rng.choice(BUILTIN)}, tg))
+        add(mk({"op": "rt", "spec": spec, "style": rng.choice(BUILTIN), "noprefix": True}, tg + ("noprefix",)))
         add(mk({"op": "hdec", "spec": spec, "style": rng.choice([s for s in BUILTIN if s != "ascii"]), "inter": True}, tg))
         add(mk({"op": "hdec", "spec": spec, "style": "const", "inter": False}, tg))
         # names of mixed length (centering, padding per depth)
@@ -1154,6 +1165,8 @@ def gen(rng: random.Random, tier: str):
         if scheme != "digits" or rng.random() < 0.5:
             add(mk({"op": "dot", "spec": spec}, tg + (("digit-names",) if scheme == "digits" else ())))
         add(mk({"op": "rt", "spec": spec, "style": rng.choice(BUILTIN + CUSTOM_STYLES[:4]), "md": rng.choice([0, 0, md])}, tg))
+        add(mk({"op": "rt", "spec": spec, "style": rng.choice(BUILTIN + CUSTOM_STYLES[3:4]), "md": rng.choice([0, 0, md]),
+                "noprefix": True}, tg + ("noprefix",)))
         # print_tree attribute options
         if it % 3 == 0:
             sa = with_attrs(spec, rng)
@@ -1173,7 +1186,7 @@ def gen(rng: random.Random, tier: str):
         tg = ("hostile-names",)
         add(mk({"op": "yield", "spec": spec, "style": rng.choice(BUILTIN)}, tg))
         add(mk({"op": "hyield", "spec": spec, "style": rng.choice(BUILTIN), "inter": rng.random() < 0.7}, tg))
-        add(mk({"op": "rt", "spec": spec, "style": rng.choice(BUILTIN)}, tg))
+        add(mk({"op": "rt", "spec": spec, "style": rng.choice(BUILTIN), "noprefix": rng.random() < 0.4}, tg))
         if not any(":" in s[0] or '"' in s[0] for _p, _d, s in t_pre(spec)):
             add(mk({"op": "dot", "spec": spec}, tg))
         add(mk({"op": "mermaid", "spec": spec}, tg))
